@@ -325,6 +325,29 @@ def run_job(job, work, tier, log):
                 continue
             o["inputs"] = trace_inputs(r.get("trace"))
         obligations.append(o)
+    # A failed frame check on a LOCAL variable of the extracted code (a variable the source now assigns inside a loop under
+    # contract, which the loop's assigns clause cannot know about) is a limit of the loop contract, not a violation of the
+    # property: if such checks are the only failures the job is undecided (exit 2); next to other failures they are listed.
+    failed_ = [o for o in obligations if o["status"] == "FAILURE"]
+    if failed_ and job.extract:
+        try:
+            harness_text = open(os.path.join(VERIF, job.harness), encoding="utf-8", errors="replace").read()
+        except OSError:
+            harness_text = ""
+        inc_text = ""
+        for spec in job.extract:
+            try:
+                inc_text += open(os.path.join(jw, spec["name"] + ".inc"), encoding="utf-8", errors="replace").read()
+            except OSError:
+                pass
+        def local_frame_(o):
+            m2 = re.match(r"Check that (\w+) is assignable$", o["description"] or "")
+            return bool(m2 and ".assigns." in (o["name"] or "") and re.search(r"\b%s\b" % m2.group(1), inc_text)
+                        and not re.search(r"\b%s\b" % m2.group(1), harness_text))
+        if all(local_frame_(o) for o in failed_):
+            raise ToolProblem("loop frame: the source now assigns local variable(s) %s inside a loop under contract; the loop's assigns clause "
+                              "does not list them (undecided, not a violation) in %s" %
+                              (sorted(set(re.match(r"Check that (\w+)", o["description"]).group(1) for o in failed_)), job.name))
     names = [o["name"] for o in obligations]
     for f in job.enforce:
         if not any(n and n.startswith(f + ".postcondition") for n in names):
